@@ -189,4 +189,5 @@ VARIANTS = [
     dict(id="c09-pair-skipped-by-value", fire=["C09"], file=PL,
          old="        pairwise_probabilities = []\n        for pair_a, pair_b in itertools.permutations(teams, 2):\n            pair_a_subset = self._calculate_team_ratings([pair_a])\n            pair_b_subset = self._calculate_team_ratings([pair_b])\n            mu_a = pair_a_subset[0].mu\n            sigma_a = pair_a_subset[0].sigma_squared\n            mu_b = pair_b_subset[0].mu\n            sigma_b = pair_b_subset[0].sigma_squared\n            pairwise_probabilities.append(\n                phi_major(\n                    (mu_a - mu_b) / math.sqrt(n",
          new="        pairwise_probabilities = []\n        for pair_a, pair_b in itertools.permutations(teams, 2):\n            if pair_a == pair_b:\n                pairwise_probabilities.append(0.0)\n                continue\n            pair_a_subset = self._calculate_team_ratings([pair_a])\n            pair_b_subset = self._calculate_team_ratings([pair_b])\n            mu_a = pair_a_subset[0].mu\n            sigma_a = pair_a_subset[0].sigma_squared\n            mu_b = pair_b_subset[0].mu\n            sigma_b = pair_b_subset[0].sigma_squared\n            pairwise_probabilities.append(\n                phi_major(\n                    (mu_a - mu_b) / math.sqrt(n"),
+    dict(id="c09-margin-operands-swapped", fire=["C09"], file=BTP, old="(mu_a - mu_b) / math.sqrt(n * self.beta**2 + sigma_a + sigma_b)", new="(mu_b - mu_a) / math.sqrt(n * self.beta**2 + sigma_a + sigma_b)"),
 ]
